@@ -100,7 +100,7 @@ Result(st, T, v) ==
 Bin(op, a, b) ==
   /\ Go /\ "bin" \in Templates /\ a \in Nums /\ b \in Nums
   /\ LET v == Val(op, env[a], env[b]) IN
-     /\ v.t # "skip" /\ (v.t = "float" => (v.m < 100000 /\ v.m > -100000))
+     /\ v.t # "skip" /\ (v.t = "float" => (v.m < 60000 /\ v.m > -60000 /\ v.e <= 6))
      /\ Result(Stmt("bin", op, a, b, 0, ""), RT(op, ty[a], ty[b]), v)
 \* f<n>(x: T, y: U) = x op y ; v<n> = f<n>(v_a, v_b)     -- operands typed by annotation, not by their literals
 \* an argument bound to a parameter annotated Float is converted to a float (the code generator wraps it in Float(..))
@@ -109,7 +109,7 @@ Fn(op, T, U, a, b) ==
   /\ Go /\ "fn" \in Templates /\ a \in Nums /\ b \in Nums /\ SubT(ty[a], T) /\ SubT(ty[b], U)
   /\ Conv(env[a], T).t # "skip" /\ Conv(env[b], U).t # "skip"
   /\ LET v == Val(op, Conv(env[a], T), Conv(env[b], U)) IN
-     /\ v.t # "skip" /\ (v.t = "float" => (v.m < 100000 /\ v.m > -100000))
+     /\ v.t # "skip" /\ (v.t = "float" => (v.m < 60000 /\ v.m > -60000 /\ v.e <= 6))
      /\ Result(Stmt("fn", op, a, b, 0, T \o "," \o U), RT(op, T, U), v)
 \* v<n>: T = v_a     -- widening annotation
 Ann(T, a) ==
